@@ -1122,7 +1122,9 @@ class FileBuilder:
         try:
             return self._simple_operation_executor.file_comparison_result(
                 filename, file_comparison.name)
-        except (FileNotFoundError, IsADirectoryError):
+        except (FileNotFoundError, IsADirectoryError, NotADirectoryError):
+            # A NotADirectoryError indicates that a parent directory is a
+            # regular file, so the file doesn't exist
             return None
 
     def _is_build_file_cached(self, operation):
